@@ -177,18 +177,19 @@ GotMasked(m) == [kind |-> "image", mode |-> BufMode(m), px |-> AllU, sz |-> "ful
 VARIABLES cls, buf,                \* BufSpec: mode class, buffer contents
           fmt, file, got, fcall,   \* FileSpec: pyramid format, the tile file, result of the last read, pending call
           lenv,                    \* FileSpec: how OTHER ImageLoader objects of the process were last configured
+          sib,                     \* FileSpec: the same position stored in ANOTHER format in the same directory
           pmode, pfile, phand      \* PairSpec (with fmt): image mode, the two tile files, the two live buffers
 bvars == <<cls, buf>>
-fvars == <<fmt, file, got, fcall, lenv>>
+fvars == <<fmt, file, got, fcall, lenv, sib>>
 pvars == <<pmode, pfile, phand>>
-vars == <<cls, buf, fmt, file, got, fcall, lenv, pmode, pfile, phand>>
+vars == <<cls, buf, fmt, file, got, fcall, lenv, sib, pmode, pfile, phand>>
 
 NoF == [op |-> "none", mode |-> "none", px |-> AllU]
 Positions == {1, 2}
 Handles == {1, 2}
 Closed == [pos |-> 0, px |-> AllU]                          \* no live buffer in this slot
 BufFrozen == cls = "RGBA" /\ buf = AllU
-OneFileFrozen == file = Absent /\ got = NoGot /\ fcall = NoF /\ lenv = "fresh"
+OneFileFrozen == file = Absent /\ got = NoGot /\ fcall = NoF /\ lenv = "fresh" /\ sib = Absent
 PairFrozen == pmode = "none" /\ pfile = [p \in Positions |-> Absent] /\ phand = [k \in Handles |-> Closed]
 FileFrozen == fmt = "none" /\ OneFileFrozen /\ PairFrozen
 
@@ -219,23 +220,36 @@ BufSpec == BInit /\ [][BNext]_vars
 \* no colourspace processing, a crop, a Photoshop layer), "dflt" = the last one was given the defaults.  Tiles are read
 \* through loaders of their own (read_image makes one per call): what other loaders were told must not matter.
 LoaderConfigs == {"all", "dflt"}
-FInit == fmt \in Formats /\ file = Absent /\ got = NoGot /\ fcall = NoF /\ lenv = "fresh" /\ BufFrozen /\ PairFrozen
+\* sib: a directory may hold the position in a second format as well (write_image / read_image with an explicit format =
+\* argument: a pyramid being redone in another format).  The two files are two tiles: storing, masking or reading one
+\* never touches the other.  The sibling is an RGBA tile (every lossless format holds RGBA), present or not.
+\* (The directory's NAME is not modelled: a tile file is a function of position and format only.  The replay rotates the
+\* histories over base directories whose names contain glob / regex / format metacharacters, relative and absolute.)
+SibTile == [mode |-> "RGBA", px |-> TLCEval([p \in 1..N |-> IF p = 1 THEN 1 ELSE IF p = N THEN 2 ELSE Undef])]
+SibOps == {"writesib", "masksib", "readsib"}
+FInit == /\ fmt \in Formats /\ file = Absent /\ got = NoGot /\ fcall = NoF /\ lenv = "fresh" /\ sib = Absent
+         /\ BufFrozen /\ PairFrozen
 FCall == /\ fcall.op = "none"
          /\ \/ fcall' = [op |-> "readnone", mode |-> "none", px |-> AllU]
             \/ \E m \in Modes : fcall' = [op |-> "readmasked", mode |-> m, px |-> AllU]
             \/ \E m \in CanHold[fmt] : \E t \in TilesOf(m) : fcall' = [op |-> "write", mode |-> m, px |-> t]
             \/ \E o \in LoaderConfigs : fcall' = [op |-> "configure", mode |-> o, px |-> AllU]
-         /\ got' = NoGot /\ UNCHANGED <<fmt, file, lenv>>
+            \/ \E o \in SibOps : fcall' = [op |-> o, mode |-> "none", px |-> AllU]
+         /\ got' = NoGot /\ UNCHANGED <<fmt, file, lenv, sib>>
 \* write_image: a completely masked image is not saved and the path is unlinked; anything else is saved
 FileAfter(f, cl) == IF cl.op # "write" THEN f
                     ELSE IF Masked(cl.mode, cl.px) THEN Absent ELSE [mode |-> cl.mode, px |-> cl.px]
+SibAfter(sb, cl) == CASE cl.op = "writesib" -> SibTile [] cl.op = "masksib" -> Absent [] OTHER -> sb
 \* read_image: the loader's image, or on ENOENT None / a cleared maskable buffer
-GotAfter(f, cl) == CASE cl.op \in {"write", "configure"} -> NoGot
+GotAfter(f, cl) == CASE cl.op \in {"write", "configure", "writesib", "masksib"} -> NoGot
+                     [] cl.op = "readsib" -> IF sib = Absent THEN GotNone ELSE GotFile(sib)
                      [] cl.op = "readnone" -> IF f = Absent THEN GotNone ELSE GotFile(f)
                      [] cl.op = "readmasked" -> IF f = Absent THEN GotMasked(cl.mode) ELSE GotFile(f)
 FRet == /\ fcall.op # "none"
         /\ file' = FileAfter(file, fcall) /\ got' = GotAfter(file, fcall) /\ fcall' = NoF /\ UNCHANGED fmt
         /\ lenv' = IF fcall.op = "configure" THEN fcall.mode ELSE lenv
+        \* writesib stores SibTile, masksib writes an all-undefined RGBA image, both with format = the sibling format
+        /\ sib' = SibAfter(sib, fcall)
 FNext == (FCall \/ FRet) /\ UNCHANGED bvars /\ UNCHANGED pvars
 FileSpec == FInit /\ [][FNext]_vars
 
@@ -266,7 +280,7 @@ PNext == /\ \/ \E k \in Handles, p \in Positions : POpen(k, p)
             \/ \E k \in Handles, op \in {"fill", "update", "set"}, i \in 1..Len(PairSrcSeq) : PMutate(k, op, PairSrcSeq[i])
             \/ \E k \in Handles : PMutate(k, "clear", AllU)
             \/ \E k \in Handles : PClose(k)
-         /\ UNCHANGED <<fmt, pmode>> /\ UNCHANGED bvars /\ UNCHANGED <<file, got, fcall, lenv>>
+         /\ UNCHANGED <<fmt, pmode>> /\ UNCHANGED bvars /\ UNCHANGED <<file, got, fcall, lenv, sib>>
 PairSpec == PInit /\ [][PNext]_vars
 
 -----------------------------------------------------------------------------
@@ -321,7 +335,8 @@ EveryCallObeysC15 == buf \in ExploreFrom =>
 
 FTypeOK == /\ file.mode \in Modes \cup {"none"} /\ file.px \in Tiles
            /\ file.mode # "none" => file.mode \in CanHold[fmt] /\ file.px \in TilesOf(file.mode)
-           /\ fcall.op \in {"none", "write", "readnone", "readmasked", "configure"} /\ lenv \in LoaderConfigs \cup {"fresh"}
+           /\ fcall.op \in {"none", "write", "readnone", "readmasked", "configure"} \cup SibOps
+           /\ lenv \in LoaderConfigs \cup {"fresh"} /\ sib \in {Absent, SibTile}
 
 FReturns(o) == fcall.op = o /\ fcall'.op = "none"
 FReads == FReturns("readnone") \/ FReturns("readmasked")
@@ -346,6 +361,13 @@ ReadsDoNotTouchTheFile == [][FReads => file' = file]_vars
 \* ... "identical pixels and mode" whatever other loaders of the process were configured with: configuring one changes
 \* no tile, and the three read-back properties above hold in every lenv (they do not mention it)
 OtherLoadersDoNotMatter == [][FReturns("configure") => file' = file /\ got' = NoGot]_vars
+\* the same position in another format is another tile: "any earlier file at that position is removed" and "every other
+\* tile reads back with identical pixels and mode" hold for each format's file on its own
+OtherFormatUntouched == [][/\ (fcall.op \in {"write", "readnone", "readmasked", "configure"} /\ fcall'.op = "none") => sib' = sib
+                           /\ (fcall.op \in SibOps /\ fcall'.op = "none") => file' = file]_vars
+SiblingReadsBackIdentical == [][FReturns("readsib") =>
+    IF sib = Absent THEN got'.kind = "none" ELSE got'.kind = "image" /\ got'.mode = sib.mode /\ got'.px = sib.px]_vars
+SiblingMaskedIsRemoved == [][FReturns("masksib") => sib' = Absent]_vars
 
 \* ---- two positions, two live buffers
 PTypeOK == /\ \A p \in Positions : pfile[p].px \in Tiles /\ pfile[p].mode \in {"none", BufMode(pmode)}
